@@ -1,0 +1,47 @@
+//go:build verif
+
+package hclwrite
+
+// Read-only exports used by the external verification harness (build tag
+// "verif"). With the tag off this file is not compiled.
+
+// VerifSpaceAfterToken exposes the formatter's pairwise spacing decision.
+func VerifSpaceAfterToken(subject, before, after *Token) bool {
+	return spaceAfterToken(subject, before, after)
+}
+
+// VerifTokenBracketChange exposes the formatter's bracket-nesting delta.
+func VerifTokenBracketChange(tok *Token) int {
+	return tokenBracketChange(tok)
+}
+
+// VerifTokenIsNewline exposes the formatter's line-ending test.
+func VerifTokenIsNewline(tok *Token) bool {
+	return tokenIsNewline(tok)
+}
+
+// VerifFormat runs the in-place formatter on a token sequence.
+func VerifFormat(tokens Tokens) {
+	format(tokens)
+}
+
+// VerifLine is one formatter line split into its three cells.
+type VerifLine struct {
+	Lead, Assign, Comment Tokens
+}
+
+// VerifLinesForFormat exposes the formatter's line/cell partitioning.
+func VerifLinesForFormat(tokens Tokens) []VerifLine {
+	lines := linesForFormat(tokens)
+	ret := make([]VerifLine, len(lines))
+	for i, l := range lines {
+		ret[i] = VerifLine{Lead: l.lead, Assign: l.assign, Comment: l.comment}
+	}
+	return ret
+}
+
+// VerifLexConfig exposes the writer's own tokenisation of a source buffer
+// (hclsyntax tokens converted to writer tokens with SpacesBefore).
+func VerifLexConfig(src []byte) Tokens {
+	return lexConfig(src)
+}
